@@ -19,7 +19,16 @@
    counter is the number of references to it from roots and from referenced compounds.
 
    Named deviations (must be caught by TLC, non-vacuity): BugAppend (APPEND forgets to count the new
-   element), BugRemGuard (Remove decrements the counter of an unreferenced compound).
+   element), BugRemGuard (Remove decrements the counter of an unreferenced compound), BugOORDoubleRelease
+   (SETITEM releases the value of a no longer referenced container before the range check and again on
+   the out-of-range path).
+
+   Exceptions raised by the instructions themselves: SETITEM with an index out of range (SetItemOOR) and
+   PICKITEM with an index out of range / a missing map key (PickItemOOR, PickMapMissing) call v.throw with
+   a fresh primitive message item AFTER part of the counter adjustments were made; the model performs the
+   adjustments of the failing path in the order of vm.go and then unwinds exactly like THROW.  Without a
+   handler in any frame the VM FAULTs: the model goes to a terminal state (fault = TRUE) about which
+   nothing is said.
 
    Code shape switch MapRemoveDropsFirst.  vm.go (tree aafec21 + verif hooks) executes REMOVE on a map as
    "Remove(key); Remove(value); Drop(index)".  TLC shows (MC_Q1.cfg, 9 actions) that this order breaks
@@ -40,7 +49,7 @@ CONSTANTS N,          \* compound ids 1..N
           Kinds,      \* subset of {"arr", "struct", "map"}
           MaxLeak,    \* state constraint: surplus of the counter over the walk (leaked cycles)
           MapRemoveDropsFirst,   \* code shape of REMOVE on a map, see RemoveOp
-          BugAppend, BugRemGuard
+          BugAppend, BugRemGuard, BugOORDoubleRelease
 
 VARIABLES h,        \* heap: [kd: id -> kind|"free", k: id -> Seq(ref), mk: id -> Seq(key), rc: id -> Int, refs: Int]
           stack,    \* Seq(ref), top is the last element
@@ -48,9 +57,10 @@ VARIABLES h,        \* heap: [kd: id -> kind|"free", k: id -> Seq(ref), mk: id -
           frames,   \* Seq([loc: Seq(ref), try: BOOLEAN])
           everCyc,  \* a cycle was built at some moment
           walked,   \* Walk of the current state (derived; kept as a variable so that it is computed once)
+          fault,    \* the VM faulted (terminal; the other variables are reset and mean nothing)
           last      \* label of the last action (history / generation only)
 
-vars == <<h, stack, statics, frames, everCyc, walked, last>>
+vars == <<h, stack, statics, frames, everCyc, walked, fault, last>>
 Ids == 1..N
 
 \* ------------------------------------------------------------------ graph helpers
@@ -155,6 +165,7 @@ Finish(hh, st, sl, fr, lab) ==
     /\ stack' = st /\ statics' = sl /\ frames' = fr
     /\ everCyc' = (everCyc \/ Cyclic(hh.k))
     /\ walked' = Walk(hh, st, sl, fr)
+    /\ fault' = FALSE
     /\ last' = lab
 
 Lab(op, a, b, kd) == [op |-> op, a |-> a, b |-> b, kd |-> kd]
@@ -168,6 +179,7 @@ Init ==
     /\ frames = << [loc |-> <<>>, try |-> FALSE] >>
     /\ everCyc = FALSE
     /\ walked = NS
+    /\ fault = FALSE
     /\ last = Lab("init", 0, 0, "")
 
 PushPrim ==
@@ -424,7 +436,66 @@ ThrowOp ==
              IN Finish(hC, stack, statics, [SubSeq(frames, 1, j) EXCEPT ![j].try = FALSE],
                        Lab("throw", Len(frames) - j, 0, ""))
 
-Next ==
+\* ------------------------------------------------------------------ exceptions raised by instructions
+EmptyHeap == [kd |-> [c \in Ids |-> "free"], k |-> [c \in Ids |-> <<>>], mk |-> [c \in Ids |-> <<>>],
+              rc |-> [c \in Ids |-> 0], refs |-> NS]
+\* uncaught: throwUnhandledException panics, the VM is in FAULT and stays there
+Fault(lab) ==
+    /\ h' = EmptyHeap /\ stack' = <<>> /\ statics' = [i \in 1..NS |-> 0]
+    /\ frames' = << [loc |-> <<>>, try |-> FALSE] >>
+    /\ everCyc' = everCyc /\ walked' = NS /\ fault' = TRUE /\ last' = lab
+HasHandler == \E j \in DOMAIN frames : frames[j].try
+Handler == CHOOSE j \in DOMAIN frames : frames[j].try /\ \A i \in DOMAIN frames : i > j => ~frames[i].try
+\* v.throw(NewByteArray(msg)) with heap hh and stack st at that moment: handleException unloads the frames
+\* above the handler, pushes the message (counted) in the catch block; ENDTRY then drops the handler.
+\* The label's b is the number of unloaded frames, -1 for the uncaught case.
+Raise(hh, st, op, a, kd) ==
+    IF HasHandler
+    THEN LET j  == Handler
+             hB == Unwind(frames, j, hh)
+             hC == Add(0, hB)
+         IN Finish(hC, Append(st, 0), statics, [SubSeq(frames, 1, j) EXCEPT ![j].try = FALSE],
+                   Lab(op, a, Len(frames) - j, kd))
+    ELSE Fault(Lab(op, a, 0 - 1, kd))
+
+\* SETITEM on an array / struct with an index out of range (idx = Len + 1 stands for every such index; the
+\* harness uses Len, Len + k and negative indexes in turn): popNoRef of the item, cloneIfStruct (+ Remove /
+\* Add), counted Pop of key and container, refs.Remove(cloned), throw
+SetItemOOR ==
+    /\ Len(stack) >= 2
+    /\ LET x == Top(0)  p == Top(1) IN
+       /\ p # 0 /\ h.kd[p] \in {"arr", "struct"}
+       /\ Clonable(h, x)
+       /\ LET r  == CIS(x, h)
+              hB == IF IsStruct(h, x) THEN Add(r.id, Rem(x, r.hh)) ELSE r.hh
+              hC == Rem(p, hB)
+              hX == IF BugOORDoubleRelease /\ hC.rc[p] = 0 THEN Rem(r.id, hC) ELSE hC
+              hD == Rem(r.id, hX)
+          IN Raise(hD, PopN(2), "setitem_oor", Len(h.k[p]) + 1, h.kd[p])
+
+\* PICKITEM: valid index / key: counted Pops, PushItem(element)
+PickItemOp(idx) ==
+    /\ Len(stack) >= 1
+    /\ LET p == Top(0) IN
+       /\ p # 0 /\ idx \in DOMAIN h.k[p]
+       /\ LET hA == Rem(p, h)
+              hB == Add(hA.k[p][idx], hA)
+          IN Finish(hB, Append(PopN(1), h.k[p][idx]), statics, frames,
+                    Lab("pickitem", idx, IF h.kd[p] = "map" THEN h.mk[p][idx] ELSE 0, h.kd[p]))
+\* PICKITEM with an index out of range (array / struct) or a key that is not there (map): counted Pops, throw
+PickItemOOR ==
+    /\ Len(stack) >= 1
+    /\ LET p == Top(0) IN
+       /\ p # 0 /\ h.kd[p] \in {"arr", "struct"}
+       /\ Raise(Rem(p, h), PopN(1), "pickitem_oor", Len(h.k[p]) + 1, h.kd[p])
+PickMapMissing ==
+    /\ Len(stack) >= 1
+    /\ LET p == Top(0) IN
+       /\ p # 0 /\ h.kd[p] = "map"
+       /\ LET free == {key \in 0..MaxKids : \A i \in DOMAIN h.mk[p] : h.mk[p][i] # key}
+          IN Raise(Rem(p, h), PopN(1), "pickmap_missing", MinOf(free), "map")
+
+NextOp ==
     \/ PushPrim
     \/ \E kd \in Kinds, n \in 0..MaxKids : New(kd, n)
     \/ \E i \in 0..(MaxStack - 1) : Dup(i) \/ Drop(i)
@@ -439,6 +510,9 @@ Next ==
     \/ UnpackOp \/ ValuesOp \/ KeysOp
     \/ \E b \in BOOLEAN : CallOp(b)
     \/ RetOp \/ TryOp \/ ThrowOp
+    \/ SetItemOOR \/ PickItemOOR \/ PickMapMissing
+    \/ \E i \in 1..MaxKids : PickItemOp(i)
+Next == ~fault /\ NextOp
 
 Spec == Init /\ [][Next]_vars
 
@@ -447,7 +521,7 @@ Walked == walked
 WalkedOK == walked = Walk(h, stack, statics, frames)
 
 \* the abstract level, instantiated on the projection of this model
-Obs == [state |-> "NONE", final |-> FALSE, panicked |-> FALSE, gas |-> <<0>>, limit |-> <<0>>,
+Obs == [state |-> IF fault THEN "FAULT" ELSE "NONE", final |-> fault, panicked |-> FALSE, gas |-> <<0>>, limit |-> <<0>>,
         refs |-> h.refs, walked |-> Walked, cyc |-> everCyc, intbits |-> 0, itemsize |-> 0,
         idepth |-> Len(frames), tdepth |-> 0, checked |-> TRUE, onbnd |-> TRUE]
 L == INSTANCE VMLimits WITH MaxItems <- 2048, MaxIntBits <- 256, MaxItemSize <- 131070, MaxInvoc <- 1024,
@@ -474,5 +548,5 @@ LeakBound == /\ h.refs <= Walked + MaxLeak /\ h.refs >= Walked - MaxLeak
              /\ \A c \in Ids \ Free(h) : h.rc[c] <= RcRefs(c) + MaxLeak /\ h.rc[c] >= RcRefs(c) - MaxLeak
 
 \* `last` is a label only
-View == <<h, stack, statics, frames, everCyc>>
+View == <<h, stack, statics, frames, everCyc, fault>>
 =============================================================================
